@@ -112,6 +112,20 @@ Definition parse_xsd (ft : ftable) (lex : string) (dt : qname) : convres :=
       end
   end.
 
+(* a Literal that stays a Literal: its datatype is re-homed like any name (as repaired) *)
+Definition keep_literal (c : actx) (m : nsm) (lex : string) (dt : option qname) (lang : option string)
+  : outcome (option value) :=
+  match mk_literal lex dt lang with
+  | VLit l (Some d) g =>
+      match resolve_o c m (NQn d) with
+      | Done m' (Some d') => Done m' (Some (VLit l (Some d') g))
+      | Done m' None => Done m' (Some (VLit l None g))
+      | Fail m' e => Fail m' e
+      | OOD => OOD
+      end
+  | v => Done m (Some v)
+  end.
+
 (* ProvRecord._auto_literal_conversion; Done _ None = "value is None" *)
 Definition auto_conv (c : actx) (m : nsm) (a : valarg) : outcome (option value) :=
   match a with
@@ -129,13 +143,13 @@ Definition auto_conv (c : actx) (m : nsm) (a : valarg) : outcome (option value) 
       | Some d =>
           match parse_xsd (cft c) lex d with
           | CVal v => Done m (Some v)
-          | CKeep => Done m (Some (VLit lex dt None))
+          | CKeep => keep_literal c m lex dt None
           | CErr e => Fail m e
           | COOD => OOD
           end
       | None => Done m (Some (VStr lex))
       end
-  | ALit lex dt (Some g) => Done m (Some (mk_literal lex dt (Some g)))
+  | ALit lex dt (Some g) => keep_literal c m lex dt (Some g)
   | AInt z => Done m (Some (VInt z))
   | AFloat r iv g => Done m (Some (VFloat r iv g))
   | ABool b => Done m (Some (VBool b))
